@@ -112,7 +112,8 @@ func levelName(l slog.Level) string {
 	if l == custReg {
 		return "notice"
 	}
-	return fmt.Sprintf("L#%d", int(l))
+	// an unregistered level has no documented name: whatever Level.String() gives must be what is printed
+	return l.String()
 }
 
 func run(t vlib.TB, test string, sc scenario, attrsForThru slog.Attrs) {
